@@ -421,6 +421,15 @@ func (w *World) setRelations(entity Entity, relations []relationID) {
 	}
 }
 
+// relationBatchTable is a helper struct for collecting tables for batch-changing relations.
+type relationBatchTable struct {
+	mask     bitMask // relation components with changed targets, for observers
+	oldTable tableID
+	newTable tableID
+	start    int
+	len      int
+}
+
 // setRelationsBatch batch-changes entity relations.
 func (w *World) setRelationsBatch(batch *Batch, relations []relationID, fn func(table tableID, start, len int)) {
 	w.checkLocked()
@@ -429,87 +438,96 @@ func (w *World) setRelationsBatch(batch *Batch, relations []relationID, fn func(
 		panic("no relations specified")
 	}
 	lock := w.lock()
-	hasObserver := w.storage.observers.HasObservers(OnAddRelations) || w.storage.observers.HasObservers(OnRemoveRelations)
+	hasRemoveObs := w.storage.observers.HasObservers(OnRemoveRelations)
+	hasAddObs := w.storage.observers.HasObservers(OnAddRelations)
 
+	// Collect the tables that actually change, and their target tables, before anything is moved.
 	tables := w.storage.getBatchTables(batch)
-	lengths := w.storage.slices.ints
-	var totalEntities uint32 = 0
+	batchTables := w.storage.slices.relationBatches
 	for _, tableID := range tables {
 		table := &w.storage.tables[tableID]
-		lengths = append(lengths, uint32(table.Len()))
-		totalEntities += uint32(table.Len())
-	}
-
-	for i, tableID := range tables {
-		tableLen := lengths[i]
-		if tableLen == 0 {
+		if table.Len() == 0 {
 			continue
 		}
-		table := &w.storage.tables[tableID]
-		w.setRelationsTable(table, int(tableLen), relations, fn, hasObserver)
+		if batchTable, changed := w.setRelationsTable(table, relations, hasRemoveObs || hasAddObs); changed {
+			batchTables = append(batchTables, batchTable)
+		}
+	}
+	w.storage.slices.tables = tables[:0]
+
+	// Events for removed relation targets are emitted before the entire batch.
+	if hasRemoveObs {
+		for i := range batchTables {
+			batchTable := &batchTables[i]
+			oldTable := &w.storage.tables[batchTable.oldTable]
+			newMask := &w.storage.archetypes[w.storage.tables[batchTable.newTable].archetype].mask
+			earlyOut := true
+			for j := range batchTable.len {
+				if !w.storage.observers.FireSetRelations(OnRemoveRelations, oldTable.GetEntity(uintptr(j)), &batchTable.mask, newMask, earlyOut) {
+					break
+				}
+				earlyOut = false
+			}
+		}
 	}
 
-	w.storage.slices.ints = lengths[:0]
-	w.storage.slices.tables = tables[:0]
+	for i := range batchTables {
+		batchTable := &batchTables[i]
+		oldTable := &w.storage.tables[batchTable.oldTable]
+		newTable := &w.storage.tables[batchTable.newTable]
+		batchTable.start = newTable.Len()
+		w.storage.moveEntities(oldTable, newTable, uint32(batchTable.len))
+
+		if fn != nil {
+			fn(batchTable.newTable, batchTable.start, batchTable.len)
+		}
+	}
+
+	// Events for added relation targets are emitted after the entire batch.
+	if hasAddObs {
+		for i := range batchTables {
+			batchTable := &batchTables[i]
+			newTable := &w.storage.tables[batchTable.newTable]
+			newMask := &w.storage.archetypes[newTable.archetype].mask
+			earlyOut := true
+			for j := range batchTable.len {
+				index := uintptr(batchTable.start + j)
+				if !w.storage.observers.FireSetRelations(OnAddRelations, newTable.GetEntity(index), &batchTable.mask, newMask, earlyOut) {
+					break
+				}
+				earlyOut = false
+			}
+		}
+	}
+
+	w.storage.slices.relationBatches = batchTables[:0]
 
 	w.storage.registerTargets(relations)
 
 	w.unlock(lock)
 }
 
-// setRelationsTable batch-changes entity relations for a single table.
-func (w *World) setRelationsTable(oldTable *table, oldLen int, relations []relationID, fn func(table tableID, start, len int), hasObserver bool) {
-	var changeMask bitMask
+// setRelationsTable determines the target table for batch-changing entity relations of a single table.
+// Creates the target table if required. Returns false if no relation targets change for the table.
+func (w *World) setRelationsTable(oldTable *table, relations []relationID, hasObserver bool) (relationBatchTable, bool) {
+	result := relationBatchTable{oldTable: oldTable.id, len: oldTable.Len()}
 	var maskPointer *bitMask
 	if hasObserver {
-		maskPointer = &changeMask
+		maskPointer = &result.mask
 	}
 	newRelations, changed := w.storage.getExchangeTargets(oldTable, relations, maskPointer)
 
 	if !changed {
-		return
+		return result, false
 	}
 
 	oldArch := &w.storage.archetypes[oldTable.archetype]
 	newTable, ok := oldArch.GetTable(&w.storage, newRelations)
 	if !ok {
 		newTable = w.storage.createTable(oldArch, newRelations)
-		// Get the old table again, as pointers may have changed.
-		oldTable = &w.storage.tables[oldTable.id]
 	}
-
-	// TODO: move this before the entire batch?
-	if w.storage.observers.HasObservers(OnRemoveRelations) {
-		newMask := &w.storage.archetypes[newTable.archetype].mask
-		len := uintptr(oldTable.len)
-		earlyOut := true
-		for i := uintptr(0); i < len; i++ {
-			if !w.storage.observers.FireSetRelations(OnRemoveRelations, oldTable.GetEntity(i), &changeMask, newMask, earlyOut) {
-				break
-			}
-			earlyOut = false
-		}
-	}
-
-	startIdx := newTable.Len()
-	w.storage.moveEntities(oldTable, newTable, uint32(oldLen))
-
-	if fn != nil {
-		fn(newTable.id, startIdx, oldLen)
-	}
-
-	// TODO: move this after the entire batch?
-	if w.storage.observers.HasObservers(OnAddRelations) {
-		newMask := &w.storage.archetypes[newTable.archetype].mask
-		earlyOut := true
-		for i := range oldLen {
-			index := uintptr(startIdx + i)
-			if !w.storage.observers.FireSetRelations(OnAddRelations, newTable.GetEntity(index), &changeMask, newMask, earlyOut) {
-				break
-			}
-			earlyOut = false
-		}
-	}
+	result.newTable = newTable.id
+	return result, true
 }
 
 // componentID returns the component ID for a runtime component type.
